@@ -221,4 +221,9 @@ def replay(params, model, wd):
             if al is None or al.query_name != "r%d" % i:
                 return {"reproduced": True, "key": "C03:seek", "what": "offset %r of node %s does not return record r%d" % (o, k[0], i), "files": files}
     g.close()
-    return {"reproduced": False, "detail": "real index matches"}
+    if params["gz"]:
+        # offsets that are computed instead of taken from tell() only differ from BGZF virtual offsets beyond the first block
+        big = F.big_bgzf_index(wd, recs)
+        if big:
+            return {"reproduced": True, "key": "C03:index:multi-block-bgzf", "what": big, "files": files}
+    return {"reproduced": False, "detail": "real index matches (also on a multi-block BGZF file)" if params["gz"] else "real index matches"}
